@@ -294,7 +294,7 @@ auto a_transform2(Case const& c) -> std::string
     std::string e;
     {
         Scope sc;
-        auto re = etl::transform(at<K>(A, 0), at<K>(A, len(c)), at<K>(B, 0), oat<K>(D, 0), Op2{});
+        auto re = etl::transform(at<K>(A, 0), at<K>(A, len(c)), at2<K>(B, 0), oat<K>(D, 0), Op2{});
         e       = "ret=" + num(off(D, re)) + " a" + ren(A) + " b" + ren(B) + " dst" + ren(D);
     }
     return verdict(e, s);
@@ -307,16 +307,24 @@ auto table() -> std::vector<Entry> const&
     static std::vector<Entry> const t = {
         C06_REG(a_copy, "copy", 0, KP),
         C06_REG(a_copy, "copy", 0, KI),
+        C06_REG(a_copy, "copy", 0, Kpo),
+        C06_REG(a_copy, "copy", 0, Kiq),
         C06_REG(a_copy_if, "copy_if", D_PRED, KP),
         C06_REG(a_copy_if, "copy_if", D_PRED, KI),
+        C06_REG(a_copy_if, "copy_if", D_PRED, Kpo),
+        C06_REG(a_copy_if, "copy_if", D_PRED, Kiq),
         C06_REG(a_copy_n, "copy_n", D_N, KP),
         C06_REG(a_copy_n, "copy_n", D_N, KI),
+        C06_REG(a_copy_n, "copy_n", D_N, Kpo),
+        C06_REG(a_copy_n, "copy_n", D_N, Kiq),
         C06_REG(a_copy_backward, "copy_backward", 0, KP),
         C06_REG(a_copy_backward, "copy_backward", 0, KB),
         C06_REG(a_copy_overlap, "copy_overlapping", D_MID, KP),
         C06_REG(a_copy_overlap, "copy_overlapping", D_MID, KB),
         C06_REG(a_move, "move", 0, KP),
         C06_REG(a_move, "move", 0, KI),
+        C06_REG(a_move, "move", 0, Kpo),
+        C06_REG(a_move, "move", 0, Kiq),
         C06_REG(a_move_backward, "move_backward", 0, KP),
         C06_REG(a_move_backward, "move_backward", 0, KB),
         C06_REG(a_move_overlap, "move_overlapping", D_MID, KP),
@@ -331,8 +339,15 @@ auto table() -> std::vector<Entry> const&
         C06_REG(a_generate_n, "generate_n", D_N, KF),
         C06_REG(a_transform1, "transform_unary", 0, KP),
         C06_REG(a_transform1, "transform_unary", 0, KI),
+        C06_REG(a_transform1, "transform_unary", 0, Kpo),
+        C06_REG(a_transform1, "transform_unary", 0, Kiq),
         C06_REG(a_transform2, "transform_binary", D_BSAME, KP),
         C06_REG(a_transform2, "transform_binary", D_BSAME, KI),
+        C06_REG(a_transform2, "transform_binary", D_BSAME, Kpi),
+        C06_REG(a_transform2, "transform_binary", D_BSAME, Kip),
+        C06_REG(a_transform2, "transform_binary", D_BSAME, Kfi),
+        C06_REG(a_transform2, "transform_binary", D_BSAME, Kpf),
+        C06_REG(a_transform2, "transform_binary", D_BSAME, Kbp),
     };
     return t;
 }
